@@ -203,6 +203,9 @@ impl Ctx {
     }
     /// record a violation with a *signature* (stable cause description, used for known findings)
     pub fn fail(&mut self, sig: &str, msg: String) {
+        // strings coming from the library may (by a defect) be invalid UTF-8: never trust them
+        let msg = String::from_utf8_lossy(msg.as_bytes()).into_owned();
+        let sig = &String::from_utf8_lossy(sig.as_bytes()).into_owned();
         self.viol_count += 1;
         let n = self.sig_counts.entry(sig.to_string()).or_insert(0);
         *n += 1;
@@ -307,20 +310,18 @@ pub fn take_panic() -> Option<(String, String)> {
 pub fn panic_sig(loc: &str, msg: &str) -> String {
     let file = loc.rsplit_once(':').map(|x| x.0).unwrap_or(loc);
     let file = file.trim_start_matches("/repo/");
-    let mut m = String::new();
-    let mut last_digit = false;
-    for ch in msg.chars().take(60) {
-        if ch.is_ascii_digit() {
-            if !last_digit {
-                m.push('N');
-            }
-            last_digit = true;
-        } else {
-            last_digit = false;
-            m.push(if ch.is_whitespace() { '_' } else { ch });
+    let file = if let Some(i) = file.find("/library/") { &file[i + 1..] } else { file };
+    // message: ASCII letters only, first 5 words (data embedded in messages must not leak in)
+    let mut words: Vec<String> = vec![];
+    for w in msg.split(|c: char| !c.is_ascii_alphabetic()) {
+        if w.len() >= 2 {
+            words.push(w.to_ascii_lowercase());
+        }
+        if words.len() >= 5 {
+            break;
         }
     }
-    format!("panic@{}:{}", file, m)
+    format!("panic@{}:{}", file, words.join("_"))
 }
 
 /// Run `f`, converting a panic into Err((location, message)).
@@ -446,13 +447,24 @@ pub fn exec_one(chk: &dyn Check, ctx: &mut Ctx, c: &Case, idx: u64) {
     ctx.end();
 }
 
+/// Cases run on a thread with Rust's default spawned-thread stack (2 MiB): "bounded stack" is
+/// read as "fits the default thread stack". Sanitizer/valgrind instrumentation inflates frames
+/// (ASan red zones), so those builds get 4x.
+pub fn case_stack(build: &str) -> usize {
+    if matches!(build, "asan" | "tsan" | "vg") {
+        8 << 20
+    } else {
+        2 << 20
+    }
+}
+
 pub fn run_shard(chk: &'static dyn Check, g: GenParams, opts: RunOpts) -> i32 {
     install_panic_hook();
     let shard = g.shard;
     let out = opts.out_dir.clone();
     let handle = std::thread::Builder::new()
         .name("case".into())
-        .stack_size(2 << 20)
+        .stack_size(case_stack(&g.build))
         .spawn(move || {
             let mut ctx = Ctx::new(chk.id(), &g.build, g.tier);
             let mut slot = Slot::open(&format!("{}/shard_{}.slot", opts.out_dir, g.shard));
@@ -512,7 +524,7 @@ pub fn replay(chk: &'static dyn Check, build: &str, c: Case) -> Ctx {
     install_panic_hook();
     let b = build.to_string();
     std::thread::Builder::new()
-        .stack_size(2 << 20)
+        .stack_size(case_stack(build))
         .spawn(move || {
             let mut ctx = Ctx::new(chk.id(), &b, Tier::Quick);
             exec_one(chk, &mut ctx, &c, 0);
